@@ -28,6 +28,7 @@ from __future__ import annotations
 
 import ast
 import contextlib
+import copy
 import dataclasses
 import datetime
 import operator
@@ -473,7 +474,11 @@ def strload(val: str | bytes | bytearray | memoryview) -> PythonValueT:
     # `bytearray` and writable `memoryview` objects can't be hashed for the cache.
     if isinstance(val, (bytearray, memoryview)):
         val = bytes(val)
-    return _strload(val)
+    loaded = _strload(val)
+    # The cache owns the parsed object - never hand out a container a caller could mutate.
+    if loaded.__class__ in (list, dict, set, tuple):
+        return copy.deepcopy(loaded)
+    return loaded
 
 
 @compat.lru_cache(maxsize=100_000)
